@@ -12,7 +12,11 @@ TECHNIQUE = ('generated two-transaction schedules on a mini-ZODB: a Hypothesis-g
              'commits in a generated order; the stored result is reloaded by a fresh connection and '
              'compared with the two admissible outcomes (serial execution / disjoint three-way merge), '
              'checked by _check()/check()/walker; the connection log is checked for the read-dependency '
-             'declarations of every write and their absence for pure reads')
+             'declarations of every write and their absence for pure reads; in addition a bounded-exhaustive '
+             'enumeration of duels on one leaf: every subset (size 1..2) of ten leaf-targeted primitives (delete / '
+             'replace the first, a middle, the last key; insert right before the first, right after the first, '
+             'after the last key; empty the leaf) on one side against every single primitive (thorough: every '
+             'pair) on the other, on every leaf of small stored trees, both commit orders, both implementations')
 RULE = ('a case is (configuration, base fill, thinning, transaction A, transaction B, commit order).  '
         'Non-trivial: both transactions changed something and conflict resolution or a read-dependency '
         'check actually ran (the second committer had a stale object).  Distinct = distinct case JSON.')
@@ -24,8 +28,48 @@ ASSUMPTIONS = ['vlib/minizodb.py models ZODB optimistic concurrency: per-object 
 
 def shards(tier, seed):
     n = {'quick': 260, 'thorough': 6000}[tier]
-    return [{'n': n, 'fams': F.rotate(F.FAMILIES, seed * 3 + i * 4, 6 if tier == 'quick' else 22)}
-            for i in range(16)]
+    out = [{'n': n, 'fams': F.rotate(F.FAMILIES, seed * 3 + i * 4, 6 if tier == 'quick' else 22)}
+           for i in range(16)]
+    # enumerated duels on one leaf (see _duels): 1 family per shard in the quick tier, all 22 in thorough
+    fams = F.rotate(F.FAMILIES, seed * 5, 5 if tier == 'quick' else 22)
+    out += [{'mode': 'duel', 'fams': [f], 'tier': tier} for f in fams]
+    return out
+
+
+PRIMS = ['del_leaf_first', 'del_leaf_mid', 'del_leaf_last', 'rep_leaf_first', 'replace_in_leaf', 'rep_leaf_last',
+         'ins_before_first', 'ins_after_first', 'ins_after_last', 'empty_leaf']
+WITH_VALUE = ('rep_leaf_first', 'replace_in_leaf', 'rep_leaf_last', 'ins_before_first', 'ins_after_first',
+              'ins_after_last')
+
+
+def _duels(fam, tier):
+    """Bounded-exhaustive duels on ONE leaf of a small stored tree: side A runs every subset of size 1..2 of
+    the ten leaf-targeted primitives (delete / replace the first, a middle, the last key; insert right
+    before the first, right after the first, after the last key; empty the leaf), side B every single
+    primitive (thorough: also every pair), on every leaf, both commit orders, both implementations."""
+    import itertools
+    dom = [x for x in F.domain(fam, 'int') if x is not None]
+    dom = [x for x in dom if not isinstance(x, int) or abs(x) < 1000] or dom
+    a_sets = [list(c) for r in (1, 2) for c in itertools.combinations(PRIMS, r)]
+    b_sets = [[p] for p in PRIMS]
+    if tier == 'thorough':
+        b_sets = a_sets
+    shapes = (([3, 2], 2, 8), ([4, 3], 2, 11)) if tier == 'quick' else (([3, 2], 2, 8), ([4, 3], 2, 11), ([3, 3], 3, 7),
+                                                                      ([2, 2], 2, 7), ([5, 4], 2, 14))
+
+    def mk(ops, i):
+        return [[o, i] + ([1] if o in WITH_VALUE else []) for o in ops]
+    for kind in ('BTree', 'TreeSet'):
+        for impl in ('c', 'py'):
+            for sizes, step, length in shapes:
+                base = [dom[(1 + j * step) % len(dom)] for j in range(length)]
+                for i in range(3 if tier == 'quick' else 5):
+                    for ta in a_sets:
+                        for tb in b_sets:
+                            for a_first in (True, False):
+                                yield {'cfg': {'fam': fam, 'kind': kind, 'impl': impl, 'ktype': 'int', 'sizes': sizes},
+                                       'base': base, 'basev': 0, 'thin': [], 'ta': mk(ta, i), 'tb': mk(tb, i),
+                                       'a_first': a_first}
 
 
 def _cases(shard):
@@ -59,6 +103,11 @@ def _cases(shard):
                 st.tuples(st.just('del_leaf_last'), leaf_i),
                 st.tuples(st.just('empty_leaf'), leaf_i),
                 st.tuples(st.just('grow_leaf'), leaf_i, V),
+                st.tuples(st.just('ins_after_first'), leaf_i, V),
+                st.tuples(st.just('ins_before_first'), leaf_i, V),
+                st.tuples(st.just('ins_after_last'), leaf_i, V),
+                st.tuples(st.just('rep_leaf_first'), leaf_i, V), st.tuples(st.just('rep_leaf_last'), leaf_i, V),
+                st.tuples(st.just('del_leaf_mid'), leaf_i),
                 st.tuples(st.just('replace_in_leaf'), leaf_i, V),
                 st.tuples(st.just('clear')),
                 st.tuples(st.just('update'), st.lists(st.tuples(K, V).map(list), max_size=4)),
@@ -69,13 +118,31 @@ def _cases(shard):
         cfg = {'fam': fam, 'kind': kind, 'impl': impl, 'ktype': ktype}
         if kind in F.TREE_KINDS:
             cfg['sizes'] = sizes
-        return {'cfg': cfg, 'base': base, 'basev': draw(V), 'thin': thin, 'ta': txn(), 'tb': txn(),
+        ta, tb = txn(), txn()
+        if draw(st.integers(0, 3)) == 0:
+            # a duel on ONE leaf: one side removes the leaf's smallest key (which rewrites the separator
+            # above it), the other works in the same leaf - inserts right after / before that key, deletes or
+            # replaces other keys of the leaf - in every combination and both commit orders
+            i = draw(leaf_i)
+            v = draw(V)
+            local = [['ins_after_first', i, v], ['ins_before_first', i, v], ['del_leaf_last', i],
+                     ['replace_in_leaf', i, v], ['grow_leaf', i, v]]
+            ta = draw(st.lists(st.sampled_from(local), min_size=1, max_size=3, unique_by=lambda o: o[0]))
+            tb = draw(st.sampled_from([[['del_leaf_first', i]], [['del_leaf_first', i], ['ins_after_first', i, v]],
+                                       [['empty_leaf', i]], [['del_leaf_first', i], ['del_leaf_last', i]]]))
+        return {'cfg': cfg, 'base': base, 'basev': draw(V), 'thin': thin, 'ta': ta, 'tb': tb,
                 'a_first': draw(st.booleans())}
 
     return case()
 
 
 def run_shard(shard, ctx):
+    if shard.get('mode') == 'duel':
+        for fam in shard['fams']:
+            for case in _duels(fam, shard.get('tier', 'quick')):
+                if not ctx.run_case(case, run_case):
+                    return
+        return
     ctx.hyp(_cases(shard), run_case, shard['n'], 'pairs')
 
 
@@ -209,11 +276,45 @@ class Side:
                     self._w('del', lf[0])
                 elif name == 'del_leaf_last':
                     self._w('del', lf[-1])
+                elif name == 'del_leaf_mid':
+                    if len(lf) > 2:
+                        self._w('del', lf[len(lf) // 2])
+                elif name in ('rep_leaf_first', 'rep_leaf_last'):
+                    self._w('set', lf[0] if name == 'rep_leaf_first' else lf[-1],
+                            F.dv(fam, op[2]) if self.is_map else None)
+                elif name == 'ins_after_last':
+                    i = leaves.index(lf)
+                    lo = F.sortkey(lf[-1])
+                    hi = F.sortkey(leaves[i + 1][0]) if i + 1 < len(leaves) else None
+                    for tok in self.dom:
+                        k = F.dk(fam, tok)
+                        if k not in self.model and F.sortkey(k) > lo and (hi is None or F.sortkey(k) < hi):
+                            self._w('set', k, F.dv(fam, op[2]) if self.is_map else None)
+                            break
                 elif name == 'empty_leaf':
                     for k in list(lf):
                         self._w('del', k)
                 elif name == 'replace_in_leaf':
                     self._w('set', lf[len(lf) // 2], F.dv(fam, op[2]) if self.is_map else None)
+                elif name in ('ins_after_first', 'ins_before_first'):
+                    # a new key in the gap right after (before) the leaf's smallest key
+                    lo = F.sortkey(lf[0])
+                    hi = F.sortkey(lf[1]) if len(lf) > 1 else None
+                    prev = None
+                    if name == 'ins_before_first':
+                        i = leaves.index(lf)
+                        prev = F.sortkey(leaves[i - 1][-1]) if i > 0 else None
+                    for tok in self.dom:
+                        k = F.dk(fam, tok)
+                        if k in self.model:
+                            continue
+                        sk = F.sortkey(k)
+                        if name == 'ins_after_first' and sk > lo and (hi is None or sk < hi):
+                            self._w('set', k, F.dv(fam, op[2]) if self.is_map else None)
+                            break
+                        if name == 'ins_before_first' and sk < lo and (prev is None or sk > prev):
+                            self._w('set', k, F.dv(fam, op[2]) if self.is_map else None)
+                            break
                 elif name == 'grow_leaf':
                     # insert domain keys that fall inside / right after this leaf
                     toks = [F.ek(fam, k) for k in lf]
